@@ -287,6 +287,13 @@ impl Lex {
                             10
                         }
                     );
+                    // a sign belongs in front of the whole literal: `-0x5`, never `0x-5`
+                    if c.is_ascii_digit() && matches!(self.tmp.chars().next(), Some('+') | Some('-')) {
+                        return Err(Xerr::ParseError {
+                            msg: PARSE_INT_ERRMSG,
+                            substr,
+                        });
+                    }
                     let i =
                         Xint::from_str_radix(&self.tmp, radix).map_err(|_| Xerr::ParseError {
                             msg: PARSE_INT_ERRMSG,
